@@ -44,6 +44,8 @@ func propC19(w *World, r *Report) {
 	checkStableSort(w, r, fns)
 	RunTokenSep(w, r, []string{"opentype/gtab/builder.ExplainGsub", "opentype/gtab/builder.ExplainGpos"})
 	r.Floor("tokensep", 12)
+	RunPrinterKeywords(w, r, []string{"opentype/gtab/builder.ExplainGsub", "opentype/gtab/builder.ExplainGpos"}, "opentype/gtab/builder.Parse")
+	r.Floor("keywords", 8)
 	for _, a := range boundsAssumptions {
 		r.Assumes(a)
 	}
